@@ -57,7 +57,7 @@ struct Totals {
     uint64_t idleProbes = 0, readerParksJudged = 0, readersNoWriter = 0, rendezvous = 0, rendezvousReaders = 0;
     uint64_t predictedParks = 0, predictedFast = 0, lateArrivalPatterns = 0, lateArrivals = 0;
     std::atomic<uint64_t> nestedSections{0}, nestedSameResource{0};
-    uint64_t deepQueues = 0, readerCrowds = 0, simultaneousCrowds = 0, marathonRequests = 0, marathonHandovers = 0;
+    uint64_t deepQueues = 0, readerCrowds = 0, simultaneousCrowds = 0, longHolds = 0, marathonRequests = 0, marathonHandovers = 0;
     std::vector<uint64_t> fps;          // fingerprints of non-trivial cases
     std::vector<std::string> samples;
 } T;
@@ -553,6 +553,9 @@ void runPattern(uint64_t caseIdx, rt::Rng rng) {
     th.emplace_back(body, 0, rng.next());
     while (state[0].load(std::memory_order_acquire) < 2) sched_yield();
     for (size_t i = 1; i <= n; ++i) arrive(i);
+    // one case per job may be told to keep the first holder inside for seconds while the others are queued: a request
+    // that gives up waiting after a bounded time only shows beyond its bound
+    if (rt::optInt("longhold", 0) > 0 && caseIdx == rt::st().from) { usleep((useconds_t) rt::optInt("longhold", 0) * 1000); ++T.longHolds; }
     release.store(1, std::memory_order_release);
     if (pivot) {
         {   // blocked in a condvar, so that a pivot that is never granted ends in the quiescence verdict
@@ -696,7 +699,7 @@ int main(int argc, char **argv) {
                    .kv("readersNoWriter", T.readersNoWriter).kv("readerParksJudged", T.readerParksJudged)
                    .kv("rendezvous", T.rendezvous).kv("rendezvousReaders", T.rendezvousReaders)
                    .kv("predictedParks", T.predictedParks).kv("predictedFast", T.predictedFast)
-                   .kv("lateArrivalPatterns", T.lateArrivalPatterns).kv("lateArrivals", T.lateArrivals).kv("sectionsNestedInOtherResource", T.nestedSections.load()).kv("recursiveReadLocks", T.nestedSameResource.load()).kv("queuesDeeperThan64", T.deepQueues).kv("readerCrowdsOver255", T.readerCrowds).kv("simultaneousReadersOver255", T.simultaneousCrowds).kv("marathonRequests", T.marathonRequests).kv("marathonReleasesWithQueue", T.marathonHandovers)
+                   .kv("lateArrivalPatterns", T.lateArrivalPatterns).kv("lateArrivals", T.lateArrivals).kv("sectionsNestedInOtherResource", T.nestedSections.load()).kv("recursiveReadLocks", T.nestedSameResource.load()).kv("queuesDeeperThan64", T.deepQueues).kv("readerCrowdsOver255", T.readerCrowds).kv("simultaneousReadersOver255", T.simultaneousCrowds).kv("holdersKeptInsideForSeconds", T.longHolds).kv("marathonRequests", T.marathonRequests).kv("marathonReleasesWithQueue", T.marathonHandovers)
                    .kv("nontrivial", (uint64_t) T.fps.size())
                    .kv("spuriousWakeupsInjected", k.spurious.load()).kv("delaysAfterWake", k.afterWake.load()).kv("delaysCondEntry", k.condEntry.load())
                    .kv("delaysOther", k.beforeLock.load() + k.afterUnlock.load() + k.beforeNotify.load() + k.threadStart.load())
